@@ -112,9 +112,9 @@ func (s *Entry) newChildLogger(args ...any) *Entry {
 	var name string
 	var ok bool
 	if len(args) == 0 {
-		name = stringtool.RandomStringPure(6)
+		name = s.anonymousChildKey()
 	} else if name, ok = args[0].(string); !ok || name == "" {
-		name = stringtool.RandomStringPure(6)
+		name = s.anonymousChildKey()
 	}
 	if l, ok := s.items[name]; ok {
 		return l
@@ -122,6 +122,21 @@ func (s *Entry) newChildLogger(args ...any) *Entry {
 
 	s.items[name] = newentry(s, args...)
 	return s.items[name]
+}
+
+// anonymousChildKey generates the index key of an anonymous child. The
+// random name is seeded from the wall clock, so two calls within one clock
+// tick produce the same text: make sure the key is not in use yet, otherwise
+// an anonymous New or a With... call would return (and then reconfigure) an
+// existing child instead of creating one.
+func (s *Entry) anonymousChildKey() string {
+	name := stringtool.RandomStringPure(6)
+	for i := 1; ; i++ {
+		if _, ok := s.items[name]; !ok {
+			return name
+		}
+		name = stringtool.RandomStringPure(6) + "-" + strconv.Itoa(i)
+	}
 }
 
 func (s *Entry) Each(cb func(l *Entry, depth int)) {
